@@ -12,6 +12,7 @@ import (
 
 func init() {
 	register("C02", func(c *core.Ctx, tier string) {
+		truncatedBodyRefused(c, "C02.14")
 		baseTransportEffects(c, "C02.11")
 		frameTransportEffects(c, "C02.10")
 		c02OpenGuard(c)
@@ -265,6 +266,15 @@ func c02OneFrameOnePacket(c *core.Ctx) {
 				dd, k := x.SingleDef(cmp.X)
 				if !k {
 					return 0
+				}
+				// `err := w.readMessage(read, message)` — the bounded read of fix 32ab2cd returns the error alone
+				if rc, isC := ast.Unparen(dd).(*ast.CallExpr); isC && strings.HasSuffix(x.CalleeKey(rc), ".readMessage") {
+					switch cmp.Op {
+					case token.EQL:
+						return 1
+					case token.NEQ:
+						return -1
+					}
 				}
 				te, isT := dd.(*core.TupleElem)
 				if !isT || te.Index != 1 {
